@@ -133,6 +133,10 @@ def run(tier):
             misc.reserved_slot_rule(chk, 'C15.slot', prog, p, cfgname)
         chk.clause('C15.qselect', 'quick-select partition: each scan and the move after it are complements (progress on ties)')
         misc.partition_complement_rule(chk, 'C15.qselect', prog, cfgname)
+        from ..rules import lints as _lints2
+        _lints2.qselect_input_rule(chk, 'C15.qselect', prog, cfgname)
+        chk.clause('C15.cabs', 'the magnitude used by the complex drop rules and pivot search takes the real and the imaginary part')
+        misc.complex_magnitude_rule(chk, 'C15.cabs', prog, cfgname)
         if k < 9:
             raise AnalysisBroken('C15: %d loops up to relax_end[] found, floor 9' % k)
         if cfgname == 'tested':
